@@ -189,6 +189,14 @@ pub fn c07(tier: Tier, _seed: u64) -> Prop {
             }
         }));
     }
+    // ---- the instruction is the one that was fetched: call / trap forms whose own stack frame lands on their code bytes
+    //      (units shared with C05 / C06)
+    for u in super::flow::c05(tier, _seed).units.into_iter().filter(|u| u.name == "calls/frame-over-code") {
+        units.push(u);
+    }
+    for u in super::exc::c06(tier, _seed).units.into_iter().filter(|u| u.name == "TRAPA/frame-over-code") {
+        units.push(u);
+    }
     // ---- rejection seen through the real run loop: the unimplemented instruction is the last one before the
     //      exit address, so PC already equals the exit address when it fails
     units.push(Unit::new(
